@@ -36,6 +36,9 @@ func runC01(c *Ctx) {
 	ruleDescentAgreement(c, "C01.11")
 	ruleListIterationStable(c, "C01.12")
 	c08Literals(c, "C01.13")
+	ruleNoDeadStores(c, "C01.14", "storage")
+	c.Rule("C01.15", "rows read back are the rows stored: the row codec is symmetric per column type and its length prefixes are byte lengths (C08.4)")
+	checkCodecPair(c, "C01.15", "storage.(*Tuple).Encode", "storage.(*Tuple).Decode")
 }
 
 // leafCellSource: expression `S.field` where S has type *leafCell; returns key of S and the field name.
